@@ -227,6 +227,13 @@ func (w *World) Field(short, typ, field string) *types.Var {
 			return st.Field(i)
 		}
 	}
+	// a field promoted from an embedded struct (the fields were gathered into a small type that the
+	// struct embeds: t.stop still means the same thing)
+	if obj, _, _ := types.LookupFieldOrMethod(n, true, n.Obj().Pkg(), field); obj != nil {
+		if v, ok := obj.(*types.Var); ok && v.IsField() {
+			return v
+		}
+	}
 	fatalf("anchor: field %s.%s.%s not found", short, typ, field)
 	return nil
 }
